@@ -77,9 +77,12 @@ def analysis_check(pid, tier, seed, *, items, want, builders, N, variants=None, 
         if confirmed >= max_confirm and run.match_known(known_keys) is None:
             # still report, but without the fresh re-run (bounded cost); the first ones were confirmed
             for tid in tids:
-                run.violation(known_keys, {"trace": tid, "program": it["text"], "variant": suffix,
-                                           "failures": fail_summary(by_id[tid], verdicts[tid]),
-                                           "confirmed_fresh": False})
+                keys = set(known_keys)
+                if key_fn:
+                    keys |= key_fn(it, results_by_variant[suffix].get(iid, {}), fail_summary(by_id[tid], verdicts[tid], 10 ** 6))
+                run.violation(keys, {"trace": tid, "program": it["text"], "variant": suffix,
+                                     "failures": fail_summary(by_id[tid], verdicts[tid]),
+                                     "confirmed_fresh": False})
             continue
         fresh = pool.run_fresh(jobs_by_key[(iid, suffix)])
         ftr, fmeta, _ = C.build([it], {iid: fresh}, N, builders, suffix=suffix)
@@ -98,7 +101,7 @@ def analysis_check(pid, tier, seed, *, items, want, builders, N, variants=None, 
                 if f.get("tag"):
                     keys.add(f"{iid}:{f['tag']}")
             if key_fn:
-                keys |= key_fn(it, fresh, fs)
+                keys |= key_fn(it, fresh, fail_summary(t, fv[t["id"]], 10 ** 6))
             run.violation(keys, {"trace": t["id"], "program": it["text"], "origin": it.get("origin"),
                                  "variant": suffix, "point": fresh.get("points_used", [{}])[pi],
                                  "failures": fs, "confirmed_fresh": True,
@@ -154,9 +157,12 @@ def analysis_check(pid, tier, seed, *, items, want, builders, N, variants=None, 
 
 
 def standard_items(run_seed, tier, n_gen_quick, n_gen_thorough, bench_quick=15, profile=None, maxdeg=2, ngoals=5,
-                   corpus=True, bench=True):
+                   corpus=True, bench=True, corpus_quick=None):
     quick = tier == "quick"
     items = C.corpus_files() if corpus else []
+    if quick and corpus_quick is not None:
+        random.Random(run_seed + 17).shuffle(items)
+        items = items[:corpus_quick]
     if bench:
         b = C.benchmark_files()
         rng = random.Random(run_seed)
